@@ -43,7 +43,8 @@ LOOP_ENTRIES = {"member", "rfmember", "attachment", "attmember", "climember"}
 CLI_ENTRIES = {"cli", "climember"}
 WORKERS = 12
 KNOWN_SPIN = [("KF-C01-01", "Ole!VectorCountLoop"), ("KF-C01-02", "Pdf!XrefPrevCycle"),
-              ("KF-C01-03", "Pdf!ParentCycleNoResources")]
+              ("KF-C01-03", "Pdf!ParentCycleNoResources"), ("KF-C01-04", "Rtf!InfoRegexQuadratic"),
+              ("KF-C01-05", "Rtf!FieldRegexQuadratic")]
 OWN_ENTRY = {"ReadFile": ("readfile",), "ArchiveEntry": ("member",), "ArchiveLoop": ("member",),
              "Attachment": ("attachment",), "Cli": ("cli",)}
 
@@ -430,7 +431,7 @@ def _fuzz_jobs(ctx, kinds_all):
         sid = src.get("seed")
         j["ext"] = kw.pop("ext", None) or (_ext_for(kind, sid) if sid and not kw.get("foreign") else M.EXT[kind])
         kw.pop("foreign", None)
-        j["approx_size"] = len(M.seed_bytes(sid)) if sid else 0
+        j["approx_size"] = kw.pop("approx_size", None) or (len(M.seed_bytes(sid)) if sid else 0)
         if entry in LOOP_ENTRIES:
             j["members"] = kw.pop("members", rng.choice([1, 2]))
             j["arch"] = kw.pop("arch", rng.choice(["zip", "zip", "tar", "tar.gz"]))
@@ -467,7 +468,14 @@ def _fuzz_jobs(ctx, kinds_all):
     add("direct", "doc", {"seed": M.SEEDS["doc"][0], "muts": [["olevec", 0x7FFFFFFF]]}, cpu_budget=wb)
     add("direct", "pdf", {"seed": M.SEEDS["plain"][0], "muts": [["const", "pdfprev"]]}, foreign=True, cpu_budget=wb)
     add("direct", "pdf", {"seed": M.SEEDS["plain"][0], "muts": [["const", "pdfparent"]]}, foreign=True, cpu_budget=wb)
+    # KF-C01-04 / -05: quadratic RTF pre-scans; sizes at which they overrun any budget by far (100 KB = 29 s, 200 KB = 6.5 s)
+    add("direct", "rtf", {"seed": M.SEEDS["plain"][0], "muts": [["run", "rtf_info", 400]]}, foreign=True, cpu_budget=wb,
+        approx_size=410_000)
+    add("direct", "rtf", {"seed": M.SEEDS["plain"][0], "muts": [["run", "rtf_field", 1000]]}, foreign=True, cpu_budget=wb,
+        approx_size=1_030_000)
     if T:
+        add("cli", "rtf", {"seed": M.SEEDS["plain"][0], "muts": [["run", "rtf_info", 400]]}, foreign=True, cpu_budget=wb,
+            approx_size=410_000, cli_mode="text")
         add("cli", "pdf", {"seed": M.SEEDS["plain"][0], "muts": [["const", "pdfparent"]]}, foreign=True, cli_mode="text",
             cpu_budget=wb)
         add("member", "doc", {"seed": M.SEEDS["doc"][0], "muts": [["olevec", 0x7FFFFFFF]]}, members=1, arch="zip",
@@ -691,6 +699,30 @@ def _fuzz_jobs(ctx, kinds_all):
             add("cli", k, {"seed": sid, "muts": mu}, cli_mode=("text", "json", "unit")[vi % 3])
             if T or vi % 4 == 0:
                 add("direct", k, {"seed": sid, "muts": mu})
+    # ---- the hand-written record / signature scanners: (a) an unrecognised but well-formed record between recognised ones
+    #      (Mac PICT blip, unknown atom, picture with a flipped signature byte), (b) 32-bit length fields at the signed /
+    #      unsigned boundaries, edited in place inside the OLE stream (shell untouched)
+    rec_seeds = [("xls", "fix:legacy_ms/xls_with_images.xls", "Workbook", ["blip", "art"]),
+                 ("ppt", "fix:legacy_ms/slide_with_notes.ppt", "PowerPoint Document", ["tree", "art"]),
+                 ("ppt", "fix:legacy_ms/ppt_with_images.ppt", "Pictures", ["blip", "tree"]),
+                 ("doc", doc0, "Data", ["art", "tree"])]
+    if T:
+        rec_seeds += [("ppt", "fix:legacy_ms/ppt_with_images.ppt", "PowerPoint Document", ["tree", "art"]),
+                      ("ppt", "fix:legacy_ms/eurouni2.ppt", "Pictures", ["blip"]), ("doc", doc0, "WordDocument", ["art"]),
+                      ("xls", "fix:legacy_ms/xls_with_images.xls", "Workbook", ["tree"])]
+    for k, sid, stream, picks in rec_seeds:
+        for pick in picks:
+            for kk in ([0, 1, 2, 5, 17, 60] + [rng.randrange(4000) for _ in range(20 if T else 2)]):
+                hows = ["type", "sig"] + (M.LEN_BOUNDARY if (T or kk in (0, 1)) else [0xFFFFFFF8, 0x80000000, 0])
+                for how in hows:
+                    add("direct", k, {"seed": sid, "muts": [["olerec", stream, pick, kk, how]]})
+    # ---- (c) 0.7 MB runs of almost-matching prefixes for every regex / scanner that looks at the input before parsing it
+    for nm_, k in sorted(M.RUNS.items()):
+        kb_ = M.RUN_KB.get(nm_, 700)
+        add("direct", k, {"seed": txt, "muts": [["run", nm_, kb_]]}, foreign=True, approx_size=kb_ * 1030)
+        if T:
+            add(rng.choice(["readfile", "cli", "member"]), k, {"seed": txt, "muts": [["run", nm_, min(1000, kb_ * 2)]]},
+                foreign=True, approx_size=1_030_000)
     # ---- formula-bearing documents: one OMML construct nested deep (the converter is recursive), DOCX and PPTX
     ok_ = [k_ for k_ in M.OMML_NEST]
     for k in ("docx", "pptx"):
